@@ -57,6 +57,16 @@ class SDict:
         return SDict(self.dom, self.val)
 
 
+class SDictList:
+    """dict int -> list of int: domain, per-key element array, per-key length"""
+
+    def __init__(self, dom, elems, lens):
+        self.dom, self.elems, self.lens = dom, elems, lens
+
+    def copy(self):
+        return SDictList(self.dom, self.elems, self.lens)
+
+
 class SCounter:
     def __init__(self, arr):
         self.arr = arr
@@ -151,7 +161,7 @@ class LoopVC:
             for op, rn in zip(e.ops, e.comparators):
                 if isinstance(op, (ast.In, ast.NotIn)):
                     right = self.ev(rn, st, pc)
-                    if not isinstance(right, SDict):
+                    if not isinstance(right, (SDict, SDictList)):
                         raise Unsupported("`in` on a non-dict")
                     c = z3.Select(right.dom, left)
                     out.append(z3.Not(c) if isinstance(op, ast.NotIn) else c)
@@ -233,6 +243,17 @@ class LoopVC:
         st, pc = p.state, p.pc
         if isinstance(s, ast.Expr) and isinstance(s.value, ast.Constant):
             return [p]
+        if (isinstance(s, ast.Assign) and len(s.targets) == 1 and isinstance(s.targets[0], ast.Subscript) and isinstance(s.targets[0].value, ast.Name)
+                and isinstance(st.get(s.targets[0].value.id), SDictList)):
+            # d[key] = []   (the only store into a dict of lists that the subset admits)
+            if not (isinstance(s.value, ast.List) and not s.value.elts):
+                raise Unsupported(f"store into a dict of lists other than `d[k] = []` @{self.where(s)}")
+            key = self.ev(s.targets[0].slice, st, pc)
+            st = copy_state(st)
+            d = st[s.targets[0].value.id]
+            d.dom = z3.Store(d.dom, key, z3.BoolVal(True))
+            d.lens = z3.Store(d.lens, key, z3.IntVal(0))
+            return [Path(st, pc)]
         if isinstance(s, ast.Assign) and len(s.targets) == 1:
             t = s.targets[0]
             v = self.ev(s.value, st, pc)
@@ -255,6 +276,18 @@ class LoopVC:
             return a + b
         if isinstance(s, ast.Expr) and isinstance(s.value, ast.Call):
             c = s.value
+            if (isinstance(c.func, ast.Attribute) and c.func.attr == "append" and isinstance(c.func.value, ast.Subscript)
+                    and isinstance(c.func.value.value, ast.Name) and isinstance(st.get(c.func.value.value.id), SDictList)):
+                dname = c.func.value.value.id
+                key = self.ev(c.func.value.slice, st, pc)
+                v = self.num(self.ev(c.args[0], st, pc))
+                self.safety.append((pc, z3.Select(st[dname].dom, key), f"dict key present (no KeyError) @{self.where(c)}"))
+                st = copy_state(st)
+                d = st[dname]
+                ln = z3.Select(d.lens, key)
+                d.elems = z3.Store(d.elems, key, z3.Store(z3.Select(d.elems, key), ln, v))
+                d.lens = z3.Store(d.lens, key, ln + 1)
+                return [Path(st, pc)]
             if isinstance(c.func, ast.Attribute) and c.func.attr == "append" and isinstance(c.func.value, ast.Name):
                 lst = st.get(c.func.value.id)
                 if not isinstance(lst, SList):
